@@ -54,6 +54,9 @@ CHECKS = {
  "C08": dict(cat="model_checking", ref="§3 C08",
    text="Explicit-state exploration of session histories (texts with rotation, End on either side, refresh, SMP with answer or abort, all delivery interleavings within an event budget). After every API call the log of the deterministic randomness source is classified and a reference lifetime model driven by observable progress says which draws are dead; a reflective walk of the whole conversation object graph (buffers to full capacity, big.Int words) must not contain a dead DH exponent, exchange secret or session secret, nor any text given to Send other than the most recent / still queued ones, and the buffer that received a dead DH exponent must have been zeroed.",
    tech="explicit-state model checking of the implementation with an object-graph scan against a reference secret-lifetime model"),
+ "C19": dict(cat="model_checking", ref="§3 C19",
+   text="Every word of length ≤ 3 over an 8-letter step alphabet (texts either way, three kinds of forged data messages, garbage, heartbeat, refresh exchange) — 584 periodic traffic patterns — is repeated n, 2n and 4n times on the real conversations from an established session; the bytes reachable from each conversation are measured per field by a reflective walk and the output of the last period is recorded. Runs are deterministic, so growth is exact: a field or the per-period output that grows by ≥ n between 2n and 4n and ≥ n/2 between n and 2n is a violation.",
+   tech="exhaustive enumeration of periodic histories executed on the implementation with an exact object-graph size oracle"),
 }
 NA_REASON = "check not built yet (work in progress; see DESIGN.md §3 for the planned bounded exploration)"
 def main():
